@@ -48,10 +48,13 @@ ASSUMPTIONS = [
 ]
 
 BLOCK_S = 10.0       # no progress for this long and no live member process => blocked
-HARD_S = 40.0        # no progress for this long => blocked in any case
+HARD_S = 30.0        # no progress for this long => blocked in any case
 MODES = ("answer", "raise", "unknown", "exit")
 MODE_LETTER = {"raise": "R", "unknown": "U", "exit": "C"}
 DELAYS = (0, 0, 0, 1, 2, 5, 10, 20, 50)
+# the repaired loop polls the queue every 100 ms: members that finish around a multiple of the polling interval
+# exercise the path "time-out, then look whether anybody is alive, then look into the queue once more"
+POLL_DELAYS = (92, 96, 98, 100, 102, 104, 108, 198, 202)
 NVARS = 3
 
 
@@ -206,6 +209,29 @@ def _install(env):
     env.factory._all_solvers["c19member"] = C19Member
 
 
+def _perturb(pt):
+    """Schedule perturbation inside the parent (the worker): a pause before every `Process.is_alive()` and/or
+    `Process.terminate()`, as if the parent had been preempted there.  The code must be correct under every schedule;
+    the pauses widen the windows "a member finishes between the time-out of the queue and the liveness check" and
+    "a loser finishes while the winner is being selected"."""
+    import multiprocessing.process as mpp
+    a_ms, t_ms = pt.get("alive_ms", 0), pt.get("terminate_ms", 0)
+    if a_ms:
+        orig_alive = mpp.BaseProcess.is_alive
+
+        def is_alive(self):
+            time.sleep(a_ms / 1000.0)
+            return orig_alive(self)
+        mpp.BaseProcess.is_alive = is_alive
+    if t_ms:
+        orig_term = mpp.BaseProcess.terminate
+
+        def terminate(self):
+            time.sleep(t_ms / 1000.0)
+            return orig_term(self)
+        mpp.BaseProcess.terminate = terminate
+
+
 def _to_fnode(mgr, syms, f):
     op = f[0]
     if op == "var":
@@ -258,6 +284,7 @@ def _worker(cfg, wfd):
         from pysmt.solvers.portfolio import Portfolio
         env = reset_env()
         _install(env)
+        _perturb(cfg.get("perturb") or {})
         mgr = env.formula_manager
         syms = [mgr.Symbol("x%d" % i) for i in range(NVARS)]
         members = [("c19member", {"solver_options": {"delay_ms": m["delay_ms"], "mode": m["mode"], "pick": m["pick"]}})
@@ -483,7 +510,10 @@ def gen_script(rng, ncycles):
 def gen_members(rng, n, shape):
     ms = []
     tie = rng.random() < 0.5
-    d0 = rng.choice(DELAYS)
+    delays = POLL_DELAYS if shape.startswith("poll") else DELAYS
+    d0 = rng.choice(delays)
+    if shape.startswith("poll"):
+        shape = "all-fail" if rng.random() < 0.6 else "mixed"
     for i in range(n):
         if shape == "all-fail":
             mode = rng.choice(MODES[1:])
@@ -493,7 +523,7 @@ def gen_members(rng, n, shape):
             mode = rng.choice(MODES[1:])
         else:
             mode = rng.choice(MODES)
-        ms.append({"mode": mode, "delay_ms": d0 if tie else rng.choice(DELAYS), "pick": i})
+        ms.append({"mode": mode, "delay_ms": d0 if tie else rng.choice(delays), "pick": i})
     if shape == "one-answer":
         ms[rng.randrange(n)]["mode"] = "answer"
     return ms
@@ -511,13 +541,28 @@ def gen_configs(ctx):
                              "members": [{"mode": a, "delay_ms": d[0], "pick": 0},
                                          {"mode": b, "delay_ms": d[1], "pick": 1}],
                              "script": gen_script(rng, 2)})
-    n_random = 120 if ctx.tier == "quick" else 1500
-    shapes = ["mixed"] * 5 + ["all-fail"] * 2 + ["all-answer"] * 2 + ["one-answer"] * 2
+    n_random = 200 if ctx.tier == "quick" else 6000
+    shapes = ["mixed"] * 5 + ["all-fail"] * 2 + ["all-answer"] * 2 + ["one-answer"] * 2 + ["poll"] * 2
     for _ in range(n_random):
         n = rng.choice([2, 3, 3, 4, 4])
-        cfgs.append({"eoe": rng.random() < 0.3,
-                     "members": gen_members(rng, n, rng.choice(shapes)),
-                     "script": gen_script(rng, rng.choice([1, 2, 3, 4]))})
+        shape = rng.choice(shapes)
+        cfg = {"eoe": rng.random() < 0.3,
+               "members": gen_members(rng, n, shape),
+               "script": gen_script(rng, rng.choice([1, 2, 3, 4]))}
+        r = rng.random()
+        if shape == "poll":
+            # members that raise while the parent is between the time-out and the liveness checks
+            cfg["eoe"] = rng.random() < 0.7
+            cfg["perturb"] = {"alive_ms": rng.choice([0, 5, 20])}
+            if rng.random() < 0.5:
+                d = rng.choice([85, 90, 95, 100, 105])
+                for m in cfg["members"]:
+                    m["mode"] = "raise" if rng.random() < 0.8 else rng.choice(MODES)
+                    m["delay_ms"] = d + rng.choice([0, 3, 6, 9, 12])
+        elif r < 0.25:
+            # losers get time to finish while the winner is being selected
+            cfg["perturb"] = {"terminate_ms": rng.choice([2, 5, 10])}
+        cfgs.append(cfg)
     for k, c in enumerate(cfgs):
         c["id"] = k
     return cfgs
@@ -562,8 +607,8 @@ def walk(cfg):
 
 
 def describe(cfg):
-    return "eoe=%s members=[%s] script=[%s]" % (
-        cfg["eoe"],
+    return "eoe=%s%s members=[%s] script=[%s]" % (
+        cfg["eoe"], (" perturb=%s" % json.dumps(cfg["perturb"], sort_keys=True)) if cfg.get("perturb") else "",
         ", ".join("%s@%dms/pick%d" % (m["mode"], m["delay_ms"], m["pick"]) for m in cfg["members"]),
         "; ".join(s[0] + (" " + show(s[1]) if s[0] == "assert" else "") for s in cfg["script"]))
 
@@ -797,7 +842,7 @@ def replay(ctx, rep):
     import pysmt.solvers.portfolio     # noqa
     cfg = rep["replay"]["config"]
     lean_sets = lean_outcome_sets(ctx, [cfg])
-    attempts = 25
+    attempts = 80
     state = {"n": 0, "hit": False}
 
     def on_result(cfg_, records, blocked):
@@ -809,7 +854,7 @@ def replay(ctx, rep):
             state["hit"] = True
             flush_reports(ctx, cfg_, records, reports, attempts=state["n"])
 
-    batch = max(1, min(ctx.workers, 5))
+    batch = max(1, min(ctx.workers, 8))
     while state["n"] < attempts and not state["hit"] and ctx.time_left() > BLOCK_S + 15:
         run_configs(ctx, [cfg] * batch, batch, on_result)
     ctx.extra["replay_attempts"] = state["n"]
